@@ -239,6 +239,12 @@ fn eval_member(rep: &mut Report, q: &Query, kind: Kind, owner: &str, name: &str,
     let Ok(o) = obj(owner) else { return harness_reject(rep, "owner", q) };
     let Ok((exp_name, exp_desc, hit)) = refs.fwd.member(refs.g, kind, owner, name, d) else { rep.count("harness.bad_generated_descriptor"); return };
     let kname = match kind { Kind::Field => "map_field", Kind::Method => "map_method" };
+    // open: a class on the way from the owner upwards is unmapped as a class but declares this very member with names in both namespaces
+    {
+        let mut todo = vec![owner.to_string()]; let mut seen = std::collections::HashSet::new(); let mut open = false;
+        while let Some(c) = todo.pop() { if !seen.insert(c.clone()) { continue; } if refs.fwd.half_named_declares(&c, kind, name, d) { open = true; break; } if let Some(s) = refs.g.supers(&c) { todo.extend(s.iter().cloned()); } }
+        if open { rep.count("q.member.open.declared_by_a_class_without_target_name (not judged)"); return; }
+    }
     // ---- category of the query (by the reference)
     let category: &'static str = match &hit {
         Some(h) if h.via_tableless => "walk_through_class_without_entry",
@@ -602,7 +608,7 @@ fn self_checks(seed: u64) -> Result<(), String> {
 
     // ---- canaries: deliberately wrong set-ups fed to the same comparison code must be flagged
     let mut found = [false, false, false];
-    for i in 0..60u64 {
+    for i in 0..400u64 {
         let mut rng = Rng::new(rng::case_seed(seed, "C06/canary", i));
         let sc = gen_scenario(&mut rng, false);
         for (k, canary) in [Canary::ReverseSuperOrder, Canary::NoProvider].iter().enumerate() {
